@@ -1175,6 +1175,10 @@ func (r *Raft) restoreUserSnapshot(meta *SnapshotMeta, reader io.Reader) error {
 		return ErrRaftShutdown
 	}
 	if err := fsm.Error(); err != nil {
+		if err == ErrRaftShutdown {
+			// shutting down is not a failed restore
+			return err
+		}
 		panic(fmt.Errorf("failed to restore snapshot: %v", err))
 	}
 
